@@ -44,6 +44,9 @@ func _evalStmts(
 
 		if _defer, ok := val.(*object.DeferObj); ok {
 			deferObjs = append(deferObjs, *_defer)
+			// NOTE: defer stmt itself is evaluated as `nil`
+			// (otherwise deferObj is leaked to the caller if defer is the last stmt)
+			val = object.BuiltInNil
 		}
 
 		if val.Type() == object.YieldType {
